@@ -15,7 +15,7 @@ CONSTANTS
   DestSeps = {0, 58}
   DestMax = {2, 7}
   RDsts = {"b", "t"}
-  RBases = {0, 16}
+  RBases = {0}
   RAlphabet = {32, 45, 48, 49, 57, 102}
   RLen = 3
   VecTypes = {"b", "i", "f", "l"}
